@@ -3,6 +3,8 @@ import PsutilModel.Base.Proto
 import PsutilModel.Model.C04Gen
 import PsutilModel.Model.C04Fine
 import PsutilModel.Spec.C04
+import PsutilModel.Model.C04Status
+import PsutilModel.Spec.C04Status
 open Lean Psutil Psutil.Proto Psutil.C04
 
 structure DSt where
@@ -121,11 +123,31 @@ def handle (d : DSt) (j : Json) : R (DSt × Json) := do
     let n ← natF j "n"
     let mid ← listF parseKEv j "mid"
     let deny := (optF asBool j "deny").toOption.join.getD false
-    let (k', o) := if deny then linuxPidExistsDenied d.m.k n mid else linuxPidExists d.m.k n mid
+    -- `text`: the bytes of /proc/<n>/status at the read (the harness reads them off the fake procfs): the
+    -- byte-level scan runs instead of the abstract `readStatus`; `foreign_text`: not in the kernel's format
+    let text ← optF asBytes j "text"
+    let foreignText := (optF asBool j "foreign_text").toOption.join.getD false
+    let (k', o) :=
+      if deny then linuxPidExistsDenied d.m.k n mid
+      else match text with
+        | some content => linuxPidExistsText d.m.k n mid (some content)
+        | none => linuxPidExists d.m.k n mid
     -- the statement's promise (True exactly for listed PIDs) when nothing changes inside the call
-    let sp : Json := if mid.isEmpty && decide (n ≤ pidTMax) then jOut (.bool ((Spec.listed d.s.k).contains n)) else Json.null
+    let sp : Json := if mid.isEmpty && decide (n ≤ pidTMax) && !foreignText then jOut (.bool ((Spec.listed d.s.k).contains n)) else Json.null
     return (⟨{ d.m with k := k' }, { d.s with k := d.s.k.applyAll mid }, d.mouts ++ [o], d.souts ++ [none]⟩,
             jObj [("model", jOut o), ("spec", sp)])
+  -- the scan of a status text on its own: the kernel's rendering of (before, tgid, after) per Spec/C04Status,
+  -- the model's answer on those bytes, and the specification's (the two NUMBERS are equal) when well formed
+  if op == "status_scan" then
+    let n ← natF j "n"
+    let t : Spec.StatusText := ⟨← listF asBytes j "before", ← natF j "tgid", ← listF asBytes j "after"⟩
+    let jScan : ScanRes → Json := fun
+      | .eq b => jObj [("kind", "eq"), ("v", Json.bool b)]
+      | .valueError => jObj [("kind", "exc"), ("exc", "ValueError")]
+      | .indexError => jObj [("kind", "exc"), ("exc", "IndexError")]
+    let sp : Json := if t.wfb then jScan (.eq (t.tgid == n)) else Json.null
+    return (d, jObj [("model", jScan (scanStatus t.render n)), ("spec", sp),
+                     ("render", jBytes t.render)])
   if op == "pid_exists_arg" then
     let t ← strF j "t"
     let a : PyNum ← (
